@@ -372,8 +372,7 @@ def maskPre (s : St) : St :=
 /-- `mask(...)` -/
 def opMask (s : St) : St := updatemeta (maskPre s)
 
-def stackPre (s : St) (d : Dm) : St :=
-  let other := opCopy s
+def stackPre (s other : St) (d : Dm) : St :=
   let rows2 := match other.tflag with | some (_, r) => r | none => []
   let s2 := copyVarsInto (setDim (shell s) d (dimLen s d + dimLen other d)) s
     (fun rows => if d == Dm.T then rows ++ rows2 else rows)
@@ -382,7 +381,14 @@ def stackPre (s : St) (d : Dm) : St :=
 /-- `stack(self.copy(), DIM)` -/
 def opStack (s : St) (d : Dm) : Option St := do
   if !(d == Dm.T || d == Dm.L) then none
-  pure (updatemeta (stackPre s d))
+  pure (updatemeta (stackPre s (opCopy s) d))
+
+/-- `self[k:].stack(self[:k], 'TSTEP')`: a later file with an earlier one stacked behind it (the result keeps the
+order given: it starts when the later file starts) -/
+def opRestack (s : St) (k : Nat) : Option St :=
+  match opSlice s { t := some (.slc (some (k : Int)) none) }, opSlice s { t := some (.slc none (some (k : Int))) } with
+  | some later, some earlier => some (updatemeta (stackPre later earlier Dm.T))
+  | _, _ => none
 
 def interpPre (s : St) (lv : List Rat) : St :=
   -- applyAlongDimensions(LAY=interpsigma) (with its own updatemeta), then VGLVLS and NLAYS are set
@@ -403,6 +409,7 @@ inductive Op where
   | eval (new src : String) (inplace : Bool)
   | mask
   | stack (d : Dm)
+  | restack (k : Nat)
   | interp (lv : List Rat)
 deriving Repr
 
@@ -415,6 +422,7 @@ def step (s : St) : Op → Option St
   | .eval n src ip => opEval s n src ip
   | .mask => some (opMask s)
   | .stack d => opStack s d
+  | .restack k => opRestack s k
   | .interp lv => opInterp s lv
 
 /-! ### the property (C10) as a predicate -/
@@ -498,7 +506,7 @@ def parseFn : String → Option FnK
   | _ => none
 
 /-- `copy`, `slice@TSTEP~i:3;LAY~s:1:_`, `subset@a.b`, `rename@old@new`, `apply@DIM@fn`, `eval@new@src@0`,
-`mask`, `stack@DIM`, `interp@1,1/2,0` -/
+`mask`, `stack@DIM`, `restack@k`, `interp@1,1/2,0` -/
 def parseOp (s : String) : Option Op :=
   match s.splitOn "@" with
   | ["copy"] => some .copy
@@ -517,6 +525,7 @@ def parseOp (s : String) : Option Op :=
     | _, _ => none
   | ["eval", n, src, ip] => some (.eval n src (ip == "1"))
   | ["stack", d] => (parseDm d).map Op.stack
+  | ["restack", k] => (parseNat k).map Op.restack
   | ["interp", lv] => (parseList parseRat lv).map Op.interp
   | _ => none
 
